@@ -77,6 +77,8 @@ func mkHandler(id int, b refmodel.Behaviour, log *[]refmodel.Event) rux.HandlerF
 				c.AbortWithStatus(abortCode)
 			case refmodel.SAbortStMsg:
 				c.AbortWithStatus(abortCode, "no")
+			case refmodel.SStatus:
+				c.SetStatus(201)
 			case refmodel.SWrite:
 				c.WriteString("x")
 			case refmodel.SProbe:
